@@ -97,6 +97,18 @@ def descriptive_history(rng):
     return hist
 
 
+def deep_line_history(rng):
+    """a long line (13-16 revisions, as a project's main line is) with a labelled side branch: offsets of two digits"""
+    n = rng.randint(13, 16)
+    ids = ["%02dc0f%02d" % (k, k) for k in range(n)]
+    hist = [{"id": x, "down": [ids[k - 1]] if k else [], "deps": [], "labels": (["trunk"] if k == 0 else [])} for k, x in enumerate(ids)]
+    fork = rng.randrange(1, 4)
+    hist.append({"id": "side01", "down": [ids[fork]], "deps": [], "labels": ["side"]})
+    hist.append({"id": "side02", "down": ["side01"], "deps": [], "labels": []})
+    rng.shuffle(hist)
+    return hist
+
+
 def parents(hist):
     return {r["id"]: list(r.get("down", [])) + list(r.get("deps", [])) for r in hist}
 
